@@ -809,7 +809,23 @@ fn parse_op(ws: &[&str]) -> Option<(u64, usize, ParsedOp)> {
 }
 
 impl Trio {
-    fn exec_op(&mut self, ws: &[&str], mon: &mut Monitor) -> String {
+    fn exec_op(&mut self, ws0: &[&str], mon: &mut Monitor) -> String {
+        // `<h> <t> <u> fund <i> <amt> collect|config …`: a message that takes no funds sent with `amt` of the
+        // (native) pool asset `i` attached; the coins land on the pool like a donation, nothing else follows
+        let mut joined: Vec<&str> = vec![];
+        let stray: Option<(usize, u128)> = if ws0.len() >= 7 && ws0[3] == "fund" {
+            match (ws0[4].parse::<usize>(), ws0[5].parse::<u128>()) {
+                (Ok(i), Ok(a)) if i < 3 && a > 0 && matches!(ws0[6], "collect" | "config") => {
+                    joined.extend_from_slice(&ws0[..3]);
+                    joined.extend_from_slice(&ws0[6..]);
+                    Some((i, a))
+                }
+                _ => return "bad-op".into(),
+            }
+        } else {
+            None
+        };
+        let ws: &[&str] = if stray.is_some() { &joined } else { ws0 };
         let (h, u, op) = match parse_op(ws) {
             Some(x) => x,
             None => return "bad-op".into(),
@@ -819,7 +835,22 @@ impl Trio {
             None => return "bad-op".into(),
         };
         w.app.update_block(|b| b.height = h);
-        let before = w.snap();
+        let before0 = w.snap();
+        let mut before = before0.clone();
+        let mut sf: Vec<Coin> = vec![];
+        if let Some((i, a)) = stray {
+            if !w.native[i] {
+                return "bad-op".into();
+            }
+            sf.push(coin(a, w.denoms[i]));
+            // what the bank does first: the coins move from the sender to the pool
+            if before.users[u][i] >= a {
+                before.users[u][i] -= a;
+                before.pb[i] += a;
+                before.r[i] = before.r[i].and_then(|r| r.checked_add(a));
+            }
+            mon.stat("stray_funds_attached");
+        }
         let sender = acct(u);
         let pool = w.pool.clone();
         let mut sim: Option<Outcome<t::SimulationResponse>> = None;
@@ -877,7 +908,7 @@ impl Trio {
             }
             ParsedOp::Collect => {
                 let app = &mut w.app;
-                guarded(|| app.execute_contract(sender.clone(), pool.clone(), &t::ExecuteMsg::CollectProtocolFees {}, &[]))
+                guarded(|| app.execute_contract(sender.clone(), pool.clone(), &t::ExecuteMsg::CollectProtocolFees {}, &sf))
             }
             ParsedOp::Config(owner, col, fees, tog, ramp) => {
                 let msg = t::ExecuteMsg::UpdateConfig {
@@ -888,7 +919,7 @@ impl Trio {
                     amp_factor: ramp.map(|(a, b)| t::RampAmp { future_a: a, future_block: b }),
                 };
                 let app = &mut w.app;
-                guarded(|| app.execute_contract(sender.clone(), pool.clone(), &msg, &[]))
+                guarded(|| app.execute_contract(sender.clone(), pool.clone(), &msg, &sf))
             }
             ParsedOp::Donate(i, amt) => match &w.infos[*i] {
                 AssetInfo::NativeToken { denom } => {
@@ -985,7 +1016,8 @@ impl Trio {
             }
             mon.stat(&format!("foreign_amount_{}", match *amt { 0 => "0", 1 => "1", 999 => "999", 1000 => "1000", 3000 => "3000", x if x == before.users[u][3] => "own_lp_balance", _ => "other" }));
         }
-        monitors(w, mon, h, u, &op, &res, &before, &after, sim.as_ref());
+        let ok_res = matches!(res, Outcome::Ok(_));
+        monitors(w, mon, h, u, &op, &res, if ok_res { &before } else { &before0 }, &after, sim.as_ref());
         let mut line = format!("{oc} {}", after.show());
         if let Some(s) = &sim {
             line.push_str(&format!(" sim={}", show_sim(s)));
@@ -1324,7 +1356,7 @@ impl Trio {
     pub(crate) fn peek(&self) -> Option<GenView> {
         let w = self.w.as_ref()?;
         let s = w.snap();
-        Some(GenView { r: s.reserves()?, lps: s.lps, pend: s.pend, amp: s.amp, own: s.own, users: s.users, fees: s.fees })
+        Some(GenView { r: s.reserves()?, lps: s.lps, pend: s.pend, amp: s.amp, own: s.own, users: s.users, fees: s.fees, native: w.native })
     }
     /// smallest offer whose simulated protocol fee is at least `want` (Simulation query; monotone search)
     pub(crate) fn offer_for_protocol_fee(&self, offer: usize, ask: usize, want: u128, hi: u128) -> Option<u128> {
@@ -1375,4 +1407,5 @@ pub(crate) struct GenView {
     pub own: usize,
     pub users: [[u128; 4]; 6],
     pub fees: (u128, u128, u128),
+    pub native: [bool; 3],
 }
